@@ -1,5 +1,7 @@
 package mqtt
 
+import "context"
+
 // C15 (a): newID from an arbitrary 32-bit counter.
 
 func VerifH_C15_NewID() {
@@ -66,4 +68,103 @@ func VerifH_C15_PresetID() {
 	verifReach("written")
 	verifAssert(verifImplies(id != 0, p.id == id), "C15.preset_id_kept")
 	verifAssert(p.id != 0, "C15.assigned_id_nonzero")
+}
+
+// C15 (b): concurrent callers of newID, every interleaving of the atomic operations within the
+// delay bound, from a symbolic start (including just below wrap-around): all results distinct
+// and non-zero.
+func VerifH_C15_Concurrent() {
+	cli := &BaseClient{}
+	start := verifNondetU32("idlast")
+	// concentrate on the interesting region as well as the general case
+	if verifChoice("region", 2) == 1 {
+		verifAssume(verifAnd(start >= 0xFFFC, start <= 0x10001))
+	}
+	cli.idLast = start
+	n := verifParam("threads", 2)
+	per := verifParam("percaller", 2)
+	ids := make([][]uint16, n)
+	done := make(chan struct{}, n)
+	for i := 0; i < n; i++ {
+		i := i
+		go func() {
+			for k := 0; k < per; k++ {
+				ids[i] = append(ids[i], cli.newID())
+			}
+			done <- struct{}{}
+		}()
+	}
+	for i := 0; i < n; i++ {
+		<-done
+	}
+	verifReach("joined")
+	var all []uint16
+	for _, l := range ids {
+		all = append(all, l...)
+	}
+	for i := range all {
+		verifAssert(all[i] != 0, "C15.concurrent_id_nonzero")
+		for j := i + 1; j < len(all); j++ {
+			verifAssert(all[i] != all[j], "C15.concurrent_ids_distinct")
+		}
+	}
+}
+
+// C15 (c): identifiers of requests outstanding at the same time on a connection differ — also
+// when one of them is a retransmission that keeps the identifier it got on an earlier connection
+// while the new connection draws fresh identifiers from a newly seeded counter.
+func VerifH_C15_AcrossReconnect() {
+	c0 := newVconn("c0")
+	cli0 := &BaseClient{Transport: c0}
+	c0.answerConnect([]byte{0x20, 2, 0, 0})
+	_, err := cli0.Connect(context.Background(), "cid")
+	verifAssert(err == nil, "C15.harness_connect")
+	if !verifSymbolic() {
+		// native replay: the executor's symbolic rand.Int31n results become the counters' seeds
+		cli0.idLast = verifNondetU32("rand.Int31n") + 1
+	}
+	ctx, cancel := context.WithCancel(context.Background())
+	// a QoS 1 publish is interrupted on the first connection
+	var perr error
+	pdone := make(chan struct{})
+	go func() {
+		perr = cli0.Publish(ctx, &Message{Topic: "t", QoS: QoS1, Payload: []byte{1}})
+		close(pdone)
+	}()
+	verifPause()
+	c0.peerClose()
+	<-pdone
+	re, ok := perr.(ErrorWithRetry)
+	verifAssert(ok, "C15.harness_retry_handle")
+	if !ok {
+		cancel()
+		return
+	}
+	// second connection: new base client, newly seeded identifier counter
+	c1 := newVconn("c1")
+	cli1 := &BaseClient{Transport: c1}
+	c1.answerConnect([]byte{0x20, 2, 0, 0})
+	_, err = cli1.Connect(context.Background(), "cid")
+	verifAssert(err == nil, "C15.harness_connect2")
+	if !verifSymbolic() {
+		cli1.idLast = verifNondetU32("rand.Int31n") + 1
+	}
+	go func() { _ = re.Retry(ctx, cli1) }()
+	go func() { _ = cli1.Publish(ctx, &Message{Topic: "u", QoS: QoS1, Payload: []byte{2}}) }()
+	verifOnQuiescence(func() {
+		verifReach("both-outstanding")
+		ws := c1.okWrites()
+		var ids []uint16
+		for _, w := range ws {
+			if d := refDecode(w); d.ok && d.typ == 3 {
+				ids = append(ids, d.id)
+			}
+		}
+		verifAssert(len(ids) == 2, "C15.harness_two_publishes")
+		if len(ids) == 2 {
+			verifAssert(ids[0] != ids[1], "C15.outstanding_ids_differ_across_reconnect")
+		}
+		cancel()
+		c1.Close()
+	})
 }
